@@ -543,5 +543,268 @@ theorem findRigidMatchesRevAux_spec (u v : List RE) : ∀ (ps : List BasePattern
       · simp_all
       · exact e2 q hq hqr
 
+/-! ### flexible regions -/
+
+theorem flexibleMatch_sound {u' v' : List RE} (h : flexibleMatch u' v' = true) :
+    ∃ x, v' = [x] ∧ x.isFull = true := by
+  unfold flexibleMatch at h
+  split at h
+  · exact ⟨_, rfl, h⟩
+  · cases h
+
+/-- the per-pattern test of `match_flexible_patterns` -/
+def flexCheck (u v : List RE) (p : BasePattern) : Bool :=
+  p.isRigid ||
+    (decide (p.startMatch ≤ p.stopMatch ∧ p.stopMatch ≤ u.length) &&
+      flexibleMatch (slice u p.startMatch p.stopMatch) (slice v p.start p.stop))
+
+/-- The tiling argument.  For an alternating list flexible, rigid, …, flexible whose slices
+    tile `v` from `a` on and whose rigid patterns carry sound regions of `u`: if every flexible
+    pattern passes the test on the region `set_flexible_regions` gives it, then the regions tile
+    `u` from `prevEnd` on and the concatenation of `u` from `prevEnd` is included in that of `v`
+    from `a`. -/
+theorem flex_regions_sound {u v : List RE} (hu : ∀ x ∈ u, x.lang ≤ allStrings)
+    (hfull : ∀ x : RE, x.isFull = true → x.lang = allStrings)
+    {ps : List BasePattern} (halt : FlexAlt ps) : ∀ (a prevEnd : Nat),
+    Tiles v.length a ps → (∀ p ∈ ps, p.isRigid = true → RigidOK u v p) →
+    (setFlexibleRegions u.length prevEnd ps).all (flexCheck u v) = true →
+    catLang (u.drop prevEnd) ≤ catLang (v.drop a) := by
+  induction halt with
+  | single p hp =>
+    intro a prevEnd ht _ hc
+    obtain ⟨t1, t2, t3⟩ := ht
+    simp only [Tiles] at t3
+    simp only [setFlexibleRegions, hp, Bool.false_eq_true, if_false, List.all_cons, List.all_nil,
+      Bool.and_true, flexCheck, BasePattern.setMatch, Bool.false_or, Bool.and_eq_true,
+      decide_eq_true_eq] at hc
+    obtain ⟨x, hx, hxf⟩ := flexibleMatch_sound hc.2
+    have hv : v.drop a = [x] := by
+      rw [drop_eq_slice_append v (show a ≤ v.length by omega), ← t1, ← t3, hx]
+      simp; omega
+    rw [hv, catLang_singleton, hfull x hxf]
+    exact catLang_le_allStrings (fun y hy => hu y (List.mem_of_mem_drop hy))
+  | cons2 p q rest hp hq _ ih =>
+    intro a prevEnd ht hok hc
+    obtain ⟨t1, t2, t3, t4, t5⟩ := ht
+    simp only [setFlexibleRegions, hp, hq, Bool.false_eq_true, if_false, if_true, List.all_cons,
+      flexCheck, BasePattern.setMatch, Bool.false_or, Bool.true_or, Bool.true_and,
+      Bool.and_eq_true, decide_eq_true_eq] at hc
+    obtain ⟨⟨⟨c1, c2⟩, c3⟩, c4⟩ := hc
+    obtain ⟨x, hx, hxf⟩ := flexibleMatch_sound c3
+    obtain ⟨r1, r2, r3⟩ := hok q (by simp) hq
+    have ih' := ih q.stop q.stopMatch t5
+      (fun p' hp' => hok p' (List.mem_cons_of_mem _ (List.mem_cons_of_mem _ hp'))) c4
+    rw [drop_eq_slice_append u c1, drop_eq_slice_append u r1,
+      drop_eq_slice_append v (show a ≤ p.stop by omega),
+      drop_eq_slice_append v (show p.stop ≤ q.stop by omega),
+      catLang_append, catLang_append, catLang_append, catLang_append]
+    refine mul_le_mul_lang ?_ (mul_le_mul_lang ?_ ih')
+    · rw [← t1, hx, catLang_singleton, hfull x hxf]
+      exact catLang_le_allStrings (fun y hy => hu y (mem_of_mem_slice hy))
+    · rw [← t3]; exact r3
+
+theorem matchFlexiblePatterns_sound {u v : List RE} (hu : ∀ x ∈ u, x.lang ≤ allStrings)
+    (hfull : ∀ x : RE, x.isFull = true → x.lang = allStrings)
+    {ps : List BasePattern} (halt : ps = [] ∨ FlexAlt ps) (ht : Tiles v.length 0 ps)
+    (hok : ∀ p ∈ ps, p.isRigid = true → RigidOK u v p)
+    (h : matchFlexiblePatterns u v ps = true) : catLang u ≤ catLang v := by
+  rcases halt with rfl | halt
+  · simp only [matchFlexiblePatterns, List.isEmpty_iff] at h
+    simp only [Tiles] at ht
+    have : v = [] := List.eq_nil_of_length_eq_zero ht.symm
+    subst h this
+    exact le_refl _
+  · have h' : (setFlexibleRegions u.length 0 ps).all (flexCheck u v) = true := by
+      cases ps with
+      | nil => cases halt
+      | cons p rest => exact h
+    simpa using flex_regions_sound hu hfull halt 0 0 ht hok h'
+
+/-- forward pass (`find_rigid_matches` then `match_flexible_patterns`) -/
+theorem forward_pass_sound {u v : List RE} (hu : ∀ x ∈ u, x.lang ≤ allStrings)
+    (hfull : ∀ x : RE, x.isFull = true → x.lang = allStrings)
+    {ps ps' : List BasePattern} (halt : ps = [] ∨ FlexAlt ps) (ht : Tiles v.length 0 ps)
+    (hf : findRigidMatches u v 0 ps = some ps')
+    (h : matchFlexiblePatterns u v ps' = true) : catLang u ≤ catLang v := by
+  obtain ⟨e1, e2⟩ := findRigidMatches_spec u v ps 0 hf
+  refine matchFlexiblePatterns_sound hu hfull ?_ (ht.of_core e1)
+    (fun p hp hr => (e2 p hp hr).1) h
+  rcases halt with rfl | halt
+  · left; simpa using e1
+  · right; exact halt.of_core e1
+
+/-- reverse pass (`find_rigid_matches_rev` then `match_flexible_patterns`) -/
+theorem reverse_pass_sound {u v : List RE} (hu : ∀ x ∈ u, x.lang ≤ allStrings)
+    (hfull : ∀ x : RE, x.isFull = true → x.lang = allStrings)
+    {ps ps' : List BasePattern} (halt : ps = [] ∨ FlexAlt ps) (ht : Tiles v.length 0 ps)
+    (hf : findRigidMatchesRev u v ps = some ps')
+    (h : matchFlexiblePatterns u v ps' = true) : catLang u ≤ catLang v := by
+  simp only [findRigidMatchesRev, Option.map_eq_some_iff] at hf
+  obtain ⟨rs, hrs, rfl⟩ := hf
+  obtain ⟨e1, e2⟩ := findRigidMatchesRevAux_spec u v ps.reverse u.length (Nat.le_refl _) hrs
+  have e1' : rs.reverse.map BasePattern.core = ps.map BasePattern.core := by
+    rw [List.map_reverse, e1, List.map_reverse, List.reverse_reverse]
+  refine matchFlexiblePatterns_sound hu hfull ?_ (ht.of_core e1')
+    (fun p hp hr => (e2 p (List.mem_reverse.1 hp) hr).1) h
+  rcases halt with rfl | halt
+  · left; simpa using e1'
+  · right; exact halt.of_core e1'
+
+/-! ### `concat_inclusion` -/
+
+/-- the two passes of `concat_inclusion` after prefix and suffix have been removed -/
+def ciCore (u v : List RE) (p : List BasePattern) : Bool :=
+  (match findRigidMatches u v 0 p with
+    | some p' => matchFlexiblePatterns u v p'
+    | none => false) ||
+  (match findRigidMatchesRev u v p with
+    | some p' => matchFlexiblePatterns u v p'
+    | none => false)
+
+theorem ciCore_sound {u v : List RE} (hu : ∀ x ∈ u, x.lang ≤ allStrings)
+    (hfull : ∀ x : RE, x.isFull = true → x.lang = allStrings)
+    {ps : List BasePattern} (halt : ps = [] ∨ FlexAlt ps) (ht : Tiles v.length 0 ps)
+    (h : ciCore u v ps = true) : catLang u ≤ catLang v := by
+  simp only [ciCore, Bool.or_eq_true] at h
+  rcases h with h | h
+  · split at h
+    · exact forward_pass_sound hu hfull halt ht (by assumption) h
+    · cases h
+  · split at h
+    · exact reverse_pass_sound hu hfull halt ht (by assumption) h
+    · cases h
+
+/-- the suffix step of `concat_inclusion` followed by the two passes -/
+def ciStep2 (u v : List RE) (p : List BasePattern) : Bool :=
+  let step2 : Option (List RE × List RE × List BasePattern) :=
+    match p.getLast? with
+    | some pat =>
+      if pat.isRigid then
+        if rigidSuffixMatch u v pat then
+          let len := pat.len
+          some (u.take (u.length - len), v.take (v.length - len), p.dropLast)
+        else none
+      else some (u, v, p)
+    | none => some (u, v, p)
+  match step2 with
+  | none => false
+  | some (u, v, p) => ciCore u v p
+
+theorem ciStep2_sound {u v : List RE} (hu : ∀ x ∈ u, x.lang ≤ allStrings)
+    (hfull : ∀ x : RE, x.isFull = true → x.lang = allStrings)
+    {ps : List BasePattern} (halt : AltFrom false ps) (ht : Tiles v.length 0 ps)
+    (h : ciStep2 u v ps = true) : catLang u ≤ catLang v := by
+  unfold ciStep2 at h
+  cases hl : ps.getLast? with
+  | none =>
+    have : ps = [] := List.getLast?_eq_none_iff.1 hl
+    subst this
+    simp only [List.getLast?_nil] at h
+    exact ciCore_sound hu hfull (Or.inl rfl) ht h
+  | some pat =>
+    simp only [hl] at h
+    by_cases hr : pat.isRigid = true
+    · simp only [hr, if_true] at h
+      by_cases hs : rigidSuffixMatch u v pat = true
+      · simp only [hs, if_true] at h
+        obtain ⟨l, rfl⟩ := List.getLast?_eq_some_iff.1 hl
+        obtain ⟨t1, t2, t3⟩ := tiles_snoc ht
+        obtain ⟨s1, s2⟩ := rigidSuffixMatch_sound t2 (by omega) hs
+        have hlen : pat.len = v.length - pat.start := by simp [BasePattern.len, t3]
+        simp only [List.dropLast_concat] at h
+        have hl1 : AltFrom false l := alt_snoc halt
+        have hl2 : l = [] ∨ FlexAlt l := by
+          apply flexAlt_of_alt l hl1
+          intro y hy
+          obtain ⟨l', rfl⟩ := List.getLast?_eq_some_iff.1 hy
+          have := alt_snoc2 (l := l') (y := y) (x := pat) (by simpa using halt)
+          rw [hr] at this
+          revert this
+          cases y.isRigid <;> simp
+        have hpl : pat.start ≤ v.length := by omega
+        have hv2 : (v.take (v.length - pat.len)).length = pat.start := by
+          simp [hlen]; omega
+        have hcore := ciCore_sound (u := u.take (u.length - pat.len))
+          (v := v.take (v.length - pat.len))
+          (fun x hx => hu x (List.mem_of_mem_take hx)) hfull hl2 (by rw [hv2]; exact t1) h
+        have eu : u = u.take (u.length - pat.len) ++ u.drop (u.length - pat.len) :=
+          (List.take_append_drop _ _).symm
+        have ev : v = v.take (v.length - pat.len) ++ slice v pat.start pat.stop := by
+          have : slice v pat.start pat.stop = v.drop (v.length - pat.len) := by
+            unfold slice
+            rw [hlen, show v.length - (v.length - pat.start) = pat.start by omega, t3]
+            apply List.take_of_length_le
+            simp
+          rw [this, List.take_append_drop]
+        rw [eu, ev, catLang_append, catLang_append]
+        exact mul_le_mul_lang hcore s2
+      · simp [hs] at h
+    · simp only [hr, Bool.false_eq_true, if_false] at h
+      refine ciCore_sound hu hfull ?_ ht h
+      apply flexAlt_of_alt ps halt
+      intro y hy
+      rw [hl] at hy
+      cases hy
+      simpa using hr
+
+theorem concatInclusion_eq (u v : List RE) :
+    concatInclusion u v =
+      (match (match basePatterns v with
+        | pat :: rest =>
+          if pat.isRigid then
+            if rigidPrefixMatch u v pat then
+              some (u.drop pat.len, v.drop pat.len, shiftPatternStart rest pat.len)
+            else none
+          else some (u, v, basePatterns v)
+        | [] => some (u, v, basePatterns v)) with
+      | none => false
+      | some (u, v, p) => ciStep2 u v p) := rfl
+
+/-- T:`concat_inclusion_sound` with the two facts about `lang` as hypotheses: the elements of `u`
+    denote sets of SMT strings, and a term passing `is_full` denotes all SMT strings -/
+theorem concatInclusion_sound' {u v : List RE} (hu : ∀ x ∈ u, x.lang ≤ allStrings)
+    (hfull : ∀ x : RE, x.isFull = true → x.lang = allStrings)
+    (h : concatInclusion u v = true) : catLang u ≤ catLang v := by
+  rw [concatInclusion_eq] at h
+  have ht := basePatterns_tiles v
+  obtain ⟨b, halt⟩ := basePatterns_alt v
+  cases hb : basePatterns v with
+  | nil =>
+    rw [hb] at h ht halt
+    exact ciStep2_sound (ps := []) hu hfull trivial ht h
+  | cons pat rest =>
+    rw [hb] at h ht halt
+    simp only at h
+    obtain ⟨a1, a2⟩ := halt
+    obtain ⟨t1, t2, t3⟩ := ht
+    by_cases hr : pat.isRigid = true
+    · simp only [hr, if_true] at h
+      by_cases hp : rigidPrefixMatch u v pat = true
+      · simp only [hp, if_true] at h
+        have hstop : pat.stop ≤ v.length := t3.le
+        obtain ⟨s1, s2⟩ := rigidPrefixMatch_sound t2 hstop hp
+        have hlen : pat.len = pat.stop := by simp [BasePattern.len, t1]
+        have a2' : AltFrom false (shiftPatternStart rest pat.len) := by
+          apply shift_alt
+          rw [← a1, hr] at a2; simpa using a2
+        have t3' : Tiles (v.drop pat.len).length 0 (shiftPatternStart rest pat.len) := by
+          have := shift_tiles (d := pat.len) (by omega) t3
+          rw [hlen] at this ⊢
+          simpa using this
+        have hcore := ciStep2_sound (u := u.drop pat.len) (v := v.drop pat.len)
+          (fun x hx => hu x (List.mem_of_mem_drop hx)) hfull a2' t3' h
+        have eu : u = u.take pat.len ++ u.drop pat.len := (List.take_append_drop _ _).symm
+        have ev : v = slice v pat.start pat.stop ++ v.drop pat.len := by
+          rw [hlen, t1]
+          have := drop_eq_slice_append v (show 0 ≤ pat.stop by omega)
+          simpa using this
+        rw [eu, ev, catLang_append, catLang_append]
+        exact mul_le_mul_lang s2 hcore
+      · simp [hp] at h
+    · simp only [hr, Bool.false_eq_true, if_false] at h
+      have hb' : b = false := by rw [← a1]; simpa using hr
+      subst hb'
+      exact ciStep2_sound (ps := pat :: rest) hu hfull ⟨a1, a2⟩ ⟨t1, t2, t3⟩ h
+
 end RE
 end Smt
